@@ -89,6 +89,9 @@ structure CustomEnv where
   /-- `v.raw_value()` -/
   raw : Val → R
 
+/-- `>>` on a signed `w`-bit pattern `a` (arithmetic shift): logical shift, then the sign bit copied into the top `s` positions -/
+def sar (w a s : Nat) : Nat := (a >>> s) ||| (if a.testBit (w - 1) then (2 ^ s - 1) <<< (w - s) else 0)
+
 /-- `chk = true`: overflow checks on (debug); `false`: wrapping (release). -/
 def evalBin (chk : Bool) (op : BinOp) (x y : Val) : R :=
   match op, x, y with
@@ -97,7 +100,11 @@ def evalBin (chk : Bool) (op : BinOp) (x y : Val) : R :=
       else if chk then .error (.panic "shl overflow")
       else .ok (.int t ((a <<< (s % t.bits)) % 2 ^ t.bits))
   | .shr, .int t a, .int _ s =>
-      if t.signed then .error (.stuck "signed shr") else
+      if t.signed then
+        -- arithmetic shift of the two's-complement pattern: the top `s` positions are filled with the sign bit
+        (if s < t.bits then .ok (.int t (sar t.bits a s))
+         else if chk then .error (.panic "shr overflow")
+         else .ok (.int t (sar t.bits a (s % t.bits)))) else
       if s < t.bits then .ok (.int t (a >>> s))
       else if chk then .error (.panic "shr overflow")
       else .ok (.int t (a >>> (s % t.bits)))
